@@ -78,12 +78,16 @@ class SimpleSource(object):
     def _sanitise(self):
         """
         Convert attributes of type npumpy.float32 to numpy.float64 so that
-        they will print properly.
+        they will print properly, and numpy integers to int so that they are
+        stored as integers (not blobs) by sqlite.
         """
         for k in self.__dict__:
             # np.float32 has a broken __str__ method
             if isinstance(self.__dict__[k], np.float32):
                 self.__dict__[k] = np.float64(self.__dict__[k])
+            # sqlite3 has no adapter for numpy integers (e.g. from a table)
+            elif isinstance(self.__dict__[k], np.integer):
+                self.__dict__[k] = int(self.__dict__[k])
 
     def __str__(self):
         self._sanitise()
